@@ -20,12 +20,12 @@ PID = "C12"
 
 
 # ---------------------------------------------------------------- scripts as lists of atoms
-# ("mark", n) ("pad",) ("sleep", d) ("term", var) ("termself",) ("spawn", key) ("poll", n, [vars]) ; main: ("hspawn", var, key)
+# ("mark", n) ("pad",) ("sleep", d) ("uisleep", d) ("term", var) ("termself",) ("spawn", key) ("poll", n, [vars]) ; main: ("hspawn", var, key)
 def atom_cost(a):
     k = a[0]
     if k == "pad":
         return 1
-    if k in ("mark", "sleep", "term", "termself"):
+    if k in ("mark", "sleep", "uisleep", "term", "termself"):
         return 2
     if k == "spawn":
         return 3
@@ -81,6 +81,62 @@ def build_script(L, P, event, counter):
     return pre + [event] + compose(R, counter)
 
 
+def build_term_then_sleep(P, G, R, term_atom, sleep_atom, counter):
+    """P instructions, the script terminates ITSELF (term_atom), G more instructions, it goes to sleep, then R
+    instructions of markers that must never be logged (P, G: 0 or >= 2; R >= 3). Positions count the script's own
+    instructions, so with P + G + 5 <= slice everything up to the sleep happens in one slice."""
+    return compose(P, counter) + [term_atom] + compose(G, counter) + [sleep_atom] + compose(R, counter)
+
+
+def selfterm_cases(slice_len):
+    """terminate itself (through _thisScript / through its own handle in a global), then sleep / uiSleep: early-late,
+    adjacent, a few markers in between, around the slice boundary, in the first and in a later slice; alone, with a
+    monitor polling scriptDone, and with a runnable neighbour"""
+    out = []
+    spots = [(0, 0), (0, 3), (2, 9), (3, 6), (0, slice_len - 6), (0, slice_len - 5), (0, slice_len - 4), (slice_len - 8, 0),
+             (slice_len - 5, 0), (slice_len - 4, 0), (slice_len - 3, 0), (slice_len, 0), (slice_len + 3, 6), (2 * slice_len - 7, 2)]
+    for via in ("this", "handle"):
+        for sl in ("sleep", "uisleep"):
+            for n, (P, G) in enumerate(spots):
+                for company in (("mon",), ("mon", "other"), ()):
+                    if company == () and n % 3:
+                        continue
+                    if company == ("mon", "other") and n % 2:
+                        continue
+                    cnt = [0]
+
+                    def counter(cnt=cnt):
+                        cnt[0] += 1
+                        return 10000 + cnt[0]
+                    term = ("termself",) if via == "this" else ("term", "h1")
+                    scripts = {"s1": build_term_then_sleep(P, G, 6, term, (sl, 1), counter)}
+                    main = [("hspawn", "h1", "s1")]
+                    if "other" in company:
+                        ocnt = [0]
+
+                        def ocounter(ocnt=ocnt):
+                            ocnt[0] += 1
+                            return 20000 + ocnt[0]
+                        scripts["s2"] = fill(slice_len + 20, True, ocounter)
+                        main.append(("hspawn", "h2", "s2"))
+                    if "mon" in company:
+                        scripts["mon"] = ([("poll", 900001 + q, ["h1"]) for q in range(12)] + [("sleep", 3)] +
+                                          [("poll", 900101 + q, ["h1"]) for q in range(3)])
+                        main.append(("hspawn", "hm", "mon"))
+                    main.append(("pad",))
+                    out.append({"main": main, "scripts": scripts,
+                                "desc": "s1: terminate itself (%s) @%d, %s %d instructions later%s" % (
+                                    "_thisScript" if via == "this" else "own handle", P, "uiSleep" if sl == "uisleep" else "sleep", G + 3,
+                                    "; " + "+".join(company) if company else "")})
+    return out
+
+
+def never_logged(case, exp_marks):
+    """markers of the generated scripts that the round-robin oracle never emits: statements behind a script's termination"""
+    exp = set(exp_marks)
+    return set(str(a[1]) for v in case["scripts"].values() for a in v if a[0] == "mark" and str(a[1]) not in exp)
+
+
 def atom_tokens(a, scripts):
     k = a[0]
     if k == "mark":
@@ -89,6 +145,8 @@ def atom_tokens(a, scripts):
         return E(N(0))
     if k == "sleep":
         return E(Un("sleep", N(a[1])))
+    if k == "uisleep":
+        return E(Un("uiSleep", N(a[1])))
     if k == "term":
         return E(Un("terminate", Var(a[1])))
     if k == "termself":
@@ -113,7 +171,7 @@ def expand(atoms):
             ins += [("PUSH",), ("LOG", a[1])]
         elif k == "pad":
             ins += [("PUSH",)]
-        elif k == "sleep":
+        elif k in ("sleep", "uisleep"):
             ins += [("PUSH",), ("SLEEP", a[1])]
         elif k == "term":
             ins += [("GET",), ("TERM", a[1])]
@@ -232,7 +290,7 @@ def gen_case(rng, slice_len, nscripts=None, with_monitor=None):
             return (j + 1) * 10000 + cnt[0]
         base = rng.choice([0, 1, 1, 2])
         L = max(2, base * slice_len + rng.choice([-1, 0, 1])) if base else rng.choice([2, 3, 5, 8])
-        ev = rng.choice(["finish", "sleep", "spawn", "term", "termself"])
+        ev = rng.choice(["finish", "sleep", "spawn", "term", "termself", "termself+sleep", "termself+sleep"])
         P = rng.choice([0, 2, 3, slice_len - 1, slice_len, slice_len + 1, 2 * slice_len - 1, 2 * slice_len, L // 2, max(0, L - 3)])
         P = min(P, L)
         event = None
@@ -252,7 +310,15 @@ def gen_case(rng, slice_len, nscripts=None, with_monitor=None):
             event = ("term", other)
         elif ev == "termself":
             event = ("termself",)
-        atoms = build_script(L, P, event, counter)
+        if ev == "termself+sleep":
+            # the script terminates itself and then goes to sleep, mostly within one slice: nothing behind the sleep may run
+            P = rng.choice([0, 0, 2, 3, 30, slice_len - 8, slice_len - 4, slice_len, slice_len + 3])
+            G = rng.choice([0, 0, 2, 3, 6, 9, max(0, slice_len - 6 - P) if P < slice_len - 8 else 0])
+            G = 0 if G == 1 else G
+            term = rng.choice([("termself",), ("term", hv[j])])
+            atoms = build_term_then_sleep(P, G, rng.choice([3, 6, 30]), term, (rng.choice(["sleep", "sleep", "uisleep"]), rng.choice([1, 2])), counter)
+        else:
+            atoms = build_script(L, P, event, counter)
         scripts["s%d" % (j + 1)] = atoms
         desc.append("s%d:L=%d,%s@%d" % (j + 1, length(atoms), ev, P))
         main.append(("hspawn", hv[j], "s%d" % (j + 1)))
@@ -287,7 +353,7 @@ def check_sleep_times(case, marks, times):
     tm = dict(zip(marks, times))
     for key, atoms in case["scripts"].items():
         for n, a in enumerate(atoms):
-            if a[0] != "sleep":
+            if a[0] not in ("sleep", "uisleep"):
                 continue
             def label(x):
                 return str(x[1]) if x[0] == "mark" else None
@@ -320,6 +386,9 @@ def main(replay=None):
         n = 4000 if thorough else 260
         for i in range(n):
             cases.append(("random", gen_case(rng, slice_len), rng.choice([1000, 100000, 100000, 250000])))
+        # a script that terminates itself and then sleeps (the terminate request must survive the sleep)
+        for case in selfterm_cases(slice_len):
+            cases.append(("selfterm", case, 100000))
         # every event kind at every boundary position, single script + monitor
         for ev in ("finish", "sleep", "spawn", "termself"):
             for L in (slice_len - 1, slice_len, slice_len + 1, 2 * slice_len):
@@ -372,7 +441,7 @@ def main(replay=None):
         pr = SC.parse_run(i_run)
         allatoms = [a for v in case["scripts"].values() for a in v]
         has = lambda k: any(a[0] == k for a in allatoms)
-        nsleep += has("sleep"); nterm += has("term") or has("termself"); nspawn += has("spawn")
+        nsleep += has("sleep") or has("uisleep"); nterm += has("term") or has("termself"); nspawn += has("spawn")
         distinct.add(case["desc"] + "|" + str(tick))
         if len(samples) < 5 and kind != "boundary":
             samples.append({"desc": case["desc"], "tick_us": tick, "text": (rep["text"] or "")[:300], "impl": i_run[:200],
@@ -382,6 +451,11 @@ def main(replay=None):
             run.violation("scheduled scripts: the run did not come back (%s)" % i_run[:80], rep)
             continue
         marks = [m for m in SC.markers(pr["events"]) if not m.startswith("VALUE ")]
+        dead = [m for m in marks if m in never_logged(case, exp_marks)]
+        if dead:
+            rep["statements_that_must_not_run"] = dead[:10]
+            run.violation("a terminated script executed %d statement(s) after its next scheduling point (first: diag_log %s)" % (len(dead), dead[0]), rep)
+            continue
         if marks != exp_marks:
             k = next((n for n, (a, b) in enumerate(zip(marks, exp_marks)) if a != b), min(len(marks), len(exp_marks)))
             rep["first_difference"] = {"index": k, "impl": marks[k:k + 3], "round_robin": exp_marks[k:k + 3]}
@@ -398,7 +472,10 @@ def main(replay=None):
         if why:
             run.violation(why, rep)
             continue
-        # 2. correspondence
+        # 2. correspondence (uiSleep is not in the modelled fragment: those cases are judged by the oracle alone)
+        if has("uisleep"):
+            kinds["judged_by_the_oracle_alone"] = kinds.get("judged_by_the_oracle_alone", 0) + 1
+            continue
         if not SC.same_obs(d["m_obs"], d["i_obs"]):
             rep["broken"] = "correspondence SchedDefs.run_history (start_loop2/start_pass2/execute_do2) vs runtime::execute(start)"
             run.violation("implementation and model disagree (round-robin oracle satisfied)", rep, found_input=False)
@@ -415,9 +492,12 @@ def main(replay=None):
     run.cov["evaluations"] = len(cases)
     run.cov["distinct_nontrivial"] = len(distinct)
     run.cov["rule"] = ("1-4 spawned scripts of k*%d+{-1,0,1} (k<=2) or a few instructions, one event each from {finish, sleep d, spawn, "
-                       "terminate another, terminate itself} at an instruction position around the slice boundaries, an optional monitor "
+                       "terminate another, terminate itself, terminate itself (via _thisScript or its own handle) and then sleep/uiSleep} at an "
+                       "instruction position around the slice boundaries, an optional monitor "
                        "script polling scriptDone of all handles (with a sleep in between), the unscheduled main script; plus every "
-                       "event kind x length x position at the slice boundary for one script. Expected marker order from a Python "
+                       "event kind x length x position at the slice boundary for one script, and a systematic family 'terminate itself, G instructions, "
+                       "sleep' (early/late, adjacent, across the boundary, first and later slice, alone / with monitor / with a runnable neighbour). "
+                       "Oracles: statements behind a script's termination must never be logged; expected marker order (incl. scriptDone polls) from a Python "
                        "round-robin simulation over instruction counts; distinct by (script lengths, events, positions, tick)" % slice_len)
     run.cov["input_distribution"] = dict(kinds, with_sleep=nsleep, with_terminate=nterm, with_spawn=nspawn)
     run.cov["samples"] = samples
